@@ -1062,6 +1062,7 @@ class HandHistory(Iterable[State]):
         index = 0
         actions = ''
         raw_hole_cards = [['', ''] for _ in self.starting_stacks]
+        hole_dealing_counts = [0 for _ in self.starting_stacks]
         hole_cards = ''
         board_cards = ''
         match_state = ''
@@ -1127,8 +1128,13 @@ class HandHistory(Iterable[State]):
                     yield ingress()
 
                 if isinstance(operation, HoleDealing):
+                    count = hole_dealing_counts[operation.player_index]
+                    hole_dealing_counts[operation.player_index] += len(
+                        operation.cards,
+                    )
+
                     if operation.player_index == position:
-                        for i, card in enumerate(operation.cards):
+                        for i, card in enumerate(operation.cards, count):
                             if card:
                                 raw_hole_cards[position][i] = repr(card)
                 elif isinstance(operation, HoleCardsShowingOrMucking):
@@ -1191,6 +1197,7 @@ class HandHistory(Iterable[State]):
         index = 0
         actions = ''
         raw_hole_cards = [['', ''] for _ in self.starting_stacks]
+        hole_dealing_counts = [0 for _ in self.starting_stacks]
         board_cards = ''
 
         for state in self:
@@ -1206,7 +1213,12 @@ class HandHistory(Iterable[State]):
                     amount = -state.payoffs[operation.player_index]
                     actions += f'r{amount}'
                 elif isinstance(operation, HoleDealing):
-                    for i, card in enumerate(operation.cards):
+                    count = hole_dealing_counts[operation.player_index]
+                    hole_dealing_counts[operation.player_index] += len(
+                        operation.cards,
+                    )
+
+                    for i, card in enumerate(operation.cards, count):
                         if card:
                             raw_hole_cards[operation.player_index][i] = repr(
                                 card,
